@@ -17,7 +17,7 @@ pub fn def() -> PropDef {
         nontrivial,
         rule: "termination cause (13 kinds) x mailbox kind x restart strategy (default / recreate / non-restartable) x plain or stream-attached (5 stream entry points) with restart requests through Addr::restart and Context::restart, timers registered in started and messages still queued at termination, x seeded schedules; oracle = per-incarnation protocol automaton over the callback trace; non-trivial = the actor terminated with an accepted message or submitted tick unhandled, or went through a restart; distinct = distinct order of client-op and callback events",
         needed_probes: &["c03_restart_seen", "c03_stream_actor", "c03_start_failed", "c03_graceful_end_checked"],
-        quick_runs: 100_000,
+        quick_runs: 200_000,
         thorough_runs: 2_000_000,
         block: 1,
         flavours: &["tokio"],
